@@ -647,6 +647,26 @@ func runCheck(prop, tier, repo, verif string, verbose bool, tmo int) int {
 	for _, u := range lp.Unclaimed {
 		unclaimed[u] = true
 	}
+	// a claimed obligation that came back without an answer (timeout / unknown) from the parallel pass is asked again
+	// with little else running before it is reported: wall-clock times of a 16-way parallel run are noisy, and an
+	// alarm must not depend on the load of the machine. A refutation (sat) is never retried.
+	{
+		var again []*Obligation
+		idx := map[string]int{}
+		for i, r := range pr.results {
+			if r.res.Status != "unsat" && r.res.Status != "sat" && !unclaimed[r.o.Name] {
+				again = append(again, r.o)
+				idx[r.o.Name] = i
+			}
+		}
+		if len(again) > 0 && len(again) <= 60 {
+			for _, r2 := range solveAll(eng, again, timeout, dir, 2) {
+				if r2.res.Status == "unsat" || r2.res.Status == "sat" {
+					pr.results[idx[r2.o.Name]] = r2
+				}
+			}
+		}
+	}
 	findings := readFindings(filepath.Join(verif, "known_findings.txt"))
 	known := map[string]Finding{}
 	for _, f := range findings {
@@ -875,6 +895,32 @@ func runLock(props []string, repo, verif string, tmo int) int {
 	for _, p := range props {
 		pr := runProperty(eng, p, timeout, dir)
 		lp := &LockProp{Discharged: []string{}, Unclaimed: []string{}}
+		// second opinion without the load of the parallel first pass: what did not discharge within 5 s there is tried
+		// again a few at a time (wall-clock times of a 16-way parallel run are noisy)
+		var again []*Obligation
+		idx := map[string]int{}
+		prevUnclaimed := map[string]bool{}
+		if prev := lock.Properties[p]; prev != nil && os.Getenv("CSVQVC_RELOCK_ALL") == "" {
+			// obligations that were already unclaimed at the previous lock are not tried a second time
+			for _, u := range prev.Unclaimed {
+				prevUnclaimed[u] = true
+			}
+		}
+		for i, r := range pr.results {
+			if !(r.res.Status == "unsat" && r.res.Seconds <= 5) && r.res.Status != "sat" && !prevUnclaimed[r.o.Name] {
+				again = append(again, r.o)
+				idx[r.o.Name] = i
+			}
+		}
+		if len(again) > 0 && len(again) <= 400 {
+			for _, r2 := range solveAll(eng, again, timeout, dir, 3) {
+				if r2.res.Status == "unsat" {
+					if i, ok := idx[r2.o.Name]; ok && (pr.results[i].res.Status != "unsat" || r2.res.Seconds < pr.results[i].res.Seconds) {
+						pr.results[i] = r2
+					}
+				}
+			}
+		}
 		for _, r := range pr.results {
 			if r.res.Status == "unsat" {
 				// claim only obligations that discharge well inside the quick timeout (20 s): 5 s here
